@@ -29,7 +29,13 @@ import (
 	"verifharness/sim"
 )
 
-const verifDir = "/verif"
+// verifDir is where the check script lives (a snapshot under vp run, else /verif).
+var verifDir = func() string {
+	if d := os.Getenv("VERIF_DIR"); d != "" {
+		return d
+	}
+	return "/verif"
+}()
 
 var (
 	buildDir = filepath.Join(verifDir, ".build")
@@ -84,7 +90,7 @@ func goEnv() []string {
 	set("GOPROXY", "off")
 	set("GOSUMDB", "off")
 	set("GOTOOLCHAIN", "local")
-	set("GOCACHE", filepath.Join(verifDir, ".cache"))
+	set("GOCACHE", "/verif/.cache")
 	return env
 }
 
